@@ -70,11 +70,27 @@ ASSUMPTIONS = [
 
 
 def _run_case(ctx, res, H, sc, toks, tag):
-    init, steps, orc = H.replay_real(sc, toks)
+    rp = H.Replayer(sc, H.new_executor())
+    # the controller model (Model/Controller.lean) is compared on the FULL state (registers, all arrays,
+    # shared memory, unit modules, program counters, queues, pending) — every case in the thorough tier,
+    # a sample in the quick tier
+    rp.full = ctx.thorough or (res.evaluations % 3 == 0) or tag == "replay"
+    for tok in toks:
+        rp.step(tok)
+        if rp.stopped:
+            break
+    init, steps, orc = rp.init_acts, rp.steps, rp.oracle
     req = H.model_request(init, steps)
     out = ctx.driver.call(req)
     res.evaluations += 1
     d = H.compare_with_model(out, init, steps) if "obs" in out else {"model": out}
+    if rp.full:
+        cout = ctx.driver.call(H.ctl_request(rp))
+        dc = H.compare_with_ctl(cout, rp) if "obs" in cout else {"model": cout}
+        res.count("controller-model-full-state")
+        if dc is not None:
+            res.disagreements.append({"stream": "ctl.run (full state)", "input": {"scenario": sc.desc(), "schedule": toks},
+                                      "model": dc.get("model", dc), "code": dc.get("code", dc)})
     nact = sum(len(s["acts"]) for s in steps)
     res.count("actions", nact)
     res.count("responses-consumed", len(orc.consumed))
